@@ -269,11 +269,40 @@ def e2e(ctx, st):
                     "go: %s %s, %d messages injected" % (r["out"], r.get("err", ""), len(r["sent"])), concrete=False, replay=rp)
 
 
+def served(ctx):
+    """the admin service as node.go builds it (adminServiceRunnable), over gRPC on a unix socket: the same requests to nodes in different guardian-set states
+    (incl. none yet: the start-up window) and at different times; a panic in a handler ends that test process"""
+    rc, out, trace = core.harness_pkg(ctx, "guardiand", "^TestVerifC15Served$", timeout=900)
+    rows = core.read_jsonl(trace)
+    done = [r for r in rows if r.get("k") == "c15srv"]
+    crash = [l for l in out.split("\n") if l.startswith("panic:") or l.startswith("fatal error:")]
+    if crash and not done:
+        i = out.index(crash[0])
+        frames = [l.strip() for l in out[i:i + 8000].split("\n") if "wormhole-fork/node/" in l and "(" in l][:4]
+        ctx.problem("monitor", "a governance request sent to the admin socket crashed the process: `%s`; frames: %s" % (crash[0].strip()[:300], " <- ".join(frames)),
+                    "adminServiceRunnable + gRPC over a unix socket, node state: no guardian set learned yet / set 0 / set 5 (in this order)", concrete=True,
+                    replay={"test": "TestVerifC15Served", "seed": ctx.seed, "output": out[i:i + 3000]}, key="served:crash")
+        return
+    if rc != 0 or not done:
+        ctx.problem("correspondence", "go harness C15 (served admin socket)", out[-1500:])
+        return
+    ctx.cov["served_admin_socket"] = {k: v for k, v in done[0].items() if k not in ("k", "mon")}
+    seen = set()
+    for m in done[0].get("mon") or []:
+        k = "served:" + ("state" if "has not learned" in m else "later" if "again later" in m else "timestamp" if "carries timestamp" in m else "digests")
+        if k in seen:
+            continue
+        seen.add(k)
+        ctx.problem("monitor", m, "observed through the real admin socket", concrete=True, replay={"test": "TestVerifC15Served", "seed": ctx.seed, "monitor": m}, key=k)
+
+
 def run(ctx):
     st = core.run_extract(ctx, EXTRACTORS)
     core.coq_prove(ctx, "C15", extra_targets=["model/GovernanceRun.vo", "model/GovPipelineRun.vo"])
     if ctx.tier == "thorough":
         core.coq_thorough_audit(ctx, "C15")
+    if not ctx.replay:
+        served(ctx)
     rc, out, trace = core.harness_pkg(ctx, "guardiand", "^TestVerifC15$",
                                       env={"VERIF_RAL_DIR": os.path.join(core.REPO, "alephium", "contracts")})
     rows = core.read_jsonl(trace)
